@@ -90,7 +90,9 @@ package strategy
 //@ lit#0 invariant transactions == ntrans(ac, calls)
 //@ lit#0 yields ntrans(ac, calls + 1)
 
-// Outcome: all-in / all-out portfolio started with one unit of cash (C08)
+// Outcome: all-in / all-out portfolio started with one unit of cash (C08). The four state clauses are tagged C18 too:
+// cash and shares are only ever exchanged at the ratio of the current value, nothing else enters the outcome, so it
+// is homogeneous of degree 0 in the price unit (a fixed slippage or fee per fill breaks exactly these clauses)
 //@ func Outcome
 //@ requires consumed(values) == 0 && consumed(actions) == 0
 //@ requires forall k :: 0 <= k && k < len(values) ==> values[k] > 0
@@ -104,10 +106,10 @@ package strategy
 //@ lit#0 ensures[C08] "never-below-minus-100-percent" ret >= 0 - 1
 //@ lit#0 ensures[C08] "zero-until-first-buy" nobuy(actions, calls + 1) ==> ret == 0
 //@ lit#0 ensures[C08] "buy-and-hold" bhword(actions, calls + 1) ==> ret == value / values[0] - 1
-//@ lit#0 ensures[C08] "redundant-actions-are-noops" (old(shares) > 0 && action == Buy) || (old(balance) > 0 && action == Sell) || action == Hold ==> balance == old(balance) && shares == old(shares)
-//@ lit#0 ensures[C08] "buy-converts-all-cash" old(balance) > 0 && action == Buy ==> shares == old(balance) / value && balance == 0
-//@ lit#0 ensures[C08] "sell-converts-all-shares" old(shares) > 0 && action == Sell ==> balance == old(shares) * value && shares == 0
-//@ lit#0 ensures[C08] "outcome-is-portfolio-value" ret == balance + shares * value - 1
+//@ lit#0 ensures[C08,C18] "redundant-actions-are-noops" (old(shares) > 0 && action == Buy) || (old(balance) > 0 && action == Sell) || action == Hold ==> balance == old(balance) && shares == old(shares)
+//@ lit#0 ensures[C08,C18] "buy-converts-all-cash" old(balance) > 0 && action == Buy ==> shares == old(balance) / value && balance == 0
+//@ lit#0 ensures[C08,C18] "sell-converts-all-shares" old(shares) > 0 && action == Sell ==> balance == old(shares) * value && shares == 0
+//@ lit#0 ensures[C08,C18] "outcome-is-portfolio-value" ret == balance + shares * value - 1
 
 //@ func ActionsToAnnotations
 //@ requires consumed(ac) == 0 && (forall k :: 0 <= k && k < len(ac) ==> 0 - 1 <= ac[k] && ac[k] <= 1)
